@@ -17,17 +17,8 @@ Fixpoint chain (fuel : nat) (buf : list byte) (off : Z) : list elem :=
   end.
 Definition elements (buf : list byte) : list elem := chain (length buf + 1) buf 0.
 
-(* what iteration must report: the chain cut before its first non-leading empty element *)
-Fixpoint cut_empty (l : list elem) : list elem :=
-  match l with
-  | [] => []
-  | e :: r => if e_len e =? 0 then [] else e :: cut_empty r
-  end.
-Definition reported (buf : list byte) : list elem :=
-  match elements buf with
-  | [] => []
-  | e :: r => e :: cut_empty r
-  end.
+(* what iteration must report: the whole chain (an element with an empty body is an element like any other) *)
+Definition reported (buf : list byte) : list elem := elements buf.
 (* refused exactly when the first element does not fit (or there is none) *)
 Definition spec_iterate (buf : list byte) : outcome (list elem) :=
   match elements buf with
@@ -77,15 +68,14 @@ Definition nonleading_nonemptyb (l : list tag) : bool :=
   match l with [] => true | _ :: r => forallb (fun t => negb (zlen (snd t) =? 0)) r end.
 Definition spec_set (l : list tag) (num : Z) (body : list byte) : list tag :=
   remove_first num l ++ [(num, body)].
-(* the reference behaviour on the abstract list; None = the property leaves the result open
-   (some non-leading element is empty: only well-formedness is required then) *)
+(* the reference behaviour on the abstract list.  It is total: since the iterator reports empty elements like any
+   other (finding F44) the condition "no element other than the first is empty" is no longer needed, and an empty list
+   has count 0 and nothing to remove (finding F50).  The option type is kept for the driver's interface. *)
 Definition spec_step (ssid_num ds_num : Z) (l : list tag) (o : tag_op) : option (list tag * Z) :=
   match o with
   | OpAdd n b => Some (l ++ [(n, b)], 0)
-  | OpCheck n => if nonleading_nonemptyb l
-                 then Some (l, match l with [] => - EINVAL | _ => count_num n l end) else None
-  | OpRemove n => if nonleading_nonemptyb l
-                  then Some (remove_first n l, match l with [] => - EINVAL | _ => 0 end) else None
-  | OpSetSsid b => if nonleading_nonemptyb l then Some (spec_set l ssid_num b, 0) else None
-  | OpSetChannel c => if nonleading_nonemptyb l then Some (spec_set l ds_num [c], 0) else None
+  | OpCheck n => Some (l, count_num n l)
+  | OpRemove n => Some (remove_first n l, 0)
+  | OpSetSsid b => Some (spec_set l ssid_num b, 0)
+  | OpSetChannel c => Some (spec_set l ds_num [c], 0)
   end.
